@@ -1,6 +1,6 @@
 use super::{Vm, VmFileId};
 use crate::{
-  cache::InlineCache,
+  cache::{CacheIdEmitter, InlineCache},
   compiler::{Compiler, Parser, Resolver},
   source::Source,
   FeResult,
@@ -57,6 +57,15 @@ impl Vm {
     let alloc = Bump::new();
     let compiler = Compiler::new(module, &alloc, &line_offsets, file_id, repl, self, gc);
 
+    // code from earlier repl entries is still live and keeps its cache slots
+    let compiler = match self.inline_cache.get(module.id()) {
+      Some(existing) if repl => compiler.with_cache_ids(CacheIdEmitter::continuing(
+        existing.property_slots(),
+        existing.invoke_slots(),
+      )),
+      _ => compiler,
+    };
+
     #[cfg(feature = "debug")]
     let compiler = compiler.with_io(self.io.clone());
 
@@ -70,7 +79,14 @@ impl Vm {
       );
 
       if module.id() < self.inline_cache.len() {
-        self.inline_cache[module.id()] = cache;
+        if repl {
+          self.inline_cache[module.id()].grow(
+            cache_id_emitter.property_count(),
+            cache_id_emitter.invoke_count(),
+          );
+        } else {
+          self.inline_cache[module.id()] = cache;
+        }
       } else {
         self.inline_cache.push(cache);
       }
